@@ -154,6 +154,11 @@ class ExplorerScriptSsbCompiler:
         if ExpsMetaAttributes.IsSsbScript in attributes.keys():
             value = attributes[ExpsMetaAttributes.IsSsbScript]
             if value == "true" or value == "1":
+                if macros_only:
+                    # An SsbScript file consists of routines only.
+                    # noinspection PyUnusedLocal
+                    fn = os.path.basename(file_name)  # noqa
+                    raise SsbCompilerError(f(_("{fn}: Macro scripts must not contain any routines.")))
                 # Parse as SsbScript instead
                 subcompiler = SsbScriptSsbCompiler()
                 subcompiler.compile(explorerscript_src)
